@@ -100,6 +100,16 @@ Section TrieBufHistories.
     split; [apply (lookup_NoDup _ _ (after_refines ops)) | intro ph; apply (lookup_exact _ _ (after_refines ops))].
   Qed.
 
+  (* phrase-set-only form *)
+  Lemma tb_lookup_set ops k p :
+    In p (texts (tb_lookup fixed (after ops) k USIZE_MAX Standard)) <-> s_find (k, p) (spec_run s0 ops) <> None.
+  Proof.
+    destruct (tb_lookup_spec ops k) as [_ Hx]. split.
+    - intro Hin. apply in_map_iff in Hin as [ph [<- Hin]]. apply Hx in Hin. congruence.
+    - intro Hn. destruct (s_find (k, p) (spec_run s0 ops)) as [[f t]|] eqn:E; [|congruence].
+      apply in_map_iff. exists (mkPhrase p f t). split; [reflexivity|]. apply Hx. exact E.
+  Qed.
+
   Lemma tb_removed_absent ops1 k p ops2 :
     none_of (writes (k, p)) ops2 ->
     ~ In p (texts (tb_lookup fixed (after (ops1 ++ ORemove k p :: ops2)) k USIZE_MAX Standard)) /\
